@@ -44,10 +44,10 @@ def run(ctx):
         if m1lib.is_unstable(m, cid, o):
             stats['skipped_unstable'] += 1
             continue
-        try:
-            f0, obs0, k0 = molfacts.impl_run(m, cid, o)
-        except Exception:
+        r0 = m1lib.base_run(ctx, name, m, cid, o)
+        if r0 is None:
             continue
+        f0, obs0, k0 = r0
         base = (k0, m1lib.all_level_ids(f0), m1lib.fp_multiset(f0, None, 1024))
         for j in range(ctx.n(3, 30)):
             m2, order = renumbered(m, rng)
